@@ -5,9 +5,12 @@ import (
 	"errors"
 	"fmt"
 	"io"
+	"os"
+	"path/filepath"
 	"sort"
 	"strconv"
 	"strings"
+	"sync"
 
 	"github.com/gofiber/fiber/v3"
 )
@@ -121,6 +124,96 @@ type bindStrict struct {
 	B int  `query:"b" form:"b" json:"b"`
 	C bool `query:"c" form:"c" json:"c"`
 }
+
+// xsrc is ONE struct type whose fields go by a different name in every source tag. The history
+// binds it from one source, the probe from another: what the probe gets must not depend on it.
+type xsrc struct {
+	Term string `query:"q" form:"term" header:"Xterm" respHeader:"Rterm" cookie:"ct" uri:"a" json:"jt"`
+	Page string `query:"p" form:"page" header:"Xpage" respHeader:"Rpage" cookie:"cp" uri:"b" json:"jp"`
+}
+
+// every name xsrc goes by; requests carry a distinct value under each of them in every source
+var xNames = []string{"q", "p", "term", "page", "Xterm", "Xpage", "Rterm", "Rpage", "ct", "cp", "a", "b"}
+
+var xSources = []string{"query", "form", "header", "cookie", "uri", "respheader"}
+
+// bindX binds a fresh xsrc from the named source.
+func bindX(c fiber.Ctx, src string) (xsrc, error) {
+	var x xsrc
+	var err error
+	switch src {
+	case "query":
+		err = c.Bind().Query(&x)
+	case "form":
+		err = c.Bind().Form(&x)
+	case "header":
+		err = c.Bind().Header(&x)
+	case "cookie":
+		err = c.Bind().Cookie(&x)
+	case "uri":
+		err = c.Bind().URI(&x)
+	case "respheader":
+		for _, n := range []string{"Xterm", "Xpage", "Rterm", "Rpage"} {
+			c.Set(n, "resp-"+n)
+		}
+		err = c.Bind().RespHeader(&x)
+		for _, n := range []string{"Xterm", "Xpage", "Rterm", "Rpage"} {
+			c.Response().Header.Del(n)
+		}
+	default:
+		err = errors.New("unknown source " + src)
+	}
+	return x, err
+}
+
+// ---------------------------------------------------------------------------------------------
+// files for the SendFile routes: one temporary directory per process, removed by cleanupFiles.
+
+var (
+	fileOnce sync.Once
+	fileRoot string
+)
+
+var fileNames = map[string]string{"a": "a.txt", "b": "b.html", "c": "c.json"}
+
+func fileDir() string {
+	fileOnce.Do(func() {
+		d, err := os.MkdirTemp("", "ctxiso-files-")
+		if err != nil {
+			panic(err)
+		}
+		fileRoot = d
+		_ = os.WriteFile(filepath.Join(d, "a.txt"), []byte(strings.Repeat("plain text file served by SendFile\n", 40)), 0o644)
+		_ = os.WriteFile(filepath.Join(d, "b.html"), []byte("<html><body>"+strings.Repeat("<p>hello</p>", 60)+"</body></html>\n"), 0o644)
+		_ = os.WriteFile(filepath.Join(d, "c.json"), []byte(`{"k":"`+strings.Repeat("v", 500)+`"}`), 0o644)
+	})
+	return fileRoot
+}
+
+func cleanupFiles() {
+	if fileRoot != "" {
+		_ = os.RemoveAll(fileRoot)
+	}
+}
+
+// sendFileVariants: configs for the same files that differ from the base in exactly one option
+// (or two). CacheDuration is negative everywhere: no cache-cleaner goroutine, no cached handles.
+func sendFileVariants(dir string) []fiber.SendFile {
+	return []fiber.SendFile{
+		{CacheDuration: -1},
+		{CacheDuration: -1, MaxAge: 3600},
+		{CacheDuration: -1, MaxAge: 60},
+		{CacheDuration: -1, Compress: true},
+		{CacheDuration: -1, ByteRange: true},
+		{CacheDuration: -1, Download: true},
+		{CacheDuration: -2},
+		{CacheDuration: -1, FS: os.DirFS(dir)},
+		{CacheDuration: -2, MaxAge: 3600},
+		{CacheDuration: -1, Download: true, MaxAge: 60},
+	}
+}
+
+const nSendFileVariants = 10
 
 func errStr(err error) string {
 	if err == nil {
@@ -283,6 +376,68 @@ func isoBuild(cfg isoCfg) (*fiber.App, *isoSink) {
 		return c.RestartRouting()
 	})
 
+	// binds the multi-named struct from the sources listed in ?src=a.b.c
+	app.All("/xbind/:a/:b", func(c fiber.Ctx) error {
+		var sb strings.Builder
+		for _, src := range strings.Split(c.Query("src"), ".") {
+			x, err := bindX(c, src)
+			sb.WriteString(fmt.Sprintf("%s:%+v:%s;", src, x, errStr(err)))
+		}
+		return c.SendString(sb.String())
+	})
+
+	// configures a Redirect and then does not complete it (or completes it in an unusual way)
+	app.All("/redirfail/:id", func(c fiber.Ctx) error {
+		id := c.Params("id")
+		st, _ := strconv.Atoi(c.Query("status", "303"))
+		rd := c.Redirect().Status(st)
+		if c.Query("with") == "1" {
+			rd = rd.With("fk-"+id, "fv-"+id, 0x41).WithInput()
+		}
+		switch c.Query("mode") {
+		case "back":
+			return rd.Back() // without Referer and fallback: error before To()
+		case "route":
+			return rd.Route("no-such-route-" + id)
+		case "err":
+			return fiber.NewError(409, "gave up redirecting "+id)
+		}
+		return c.SendString("not redirected " + id)
+	})
+
+	app.Get("/named/:id", func(c fiber.Ctx) error { return c.SendString("named " + c.Params("id")) }).Name("named")
+
+	// SendFile with configs that differ in single options; ?probe=1 makes it the probe
+	dir := fileDir()
+	variants := sendFileVariants(dir)
+	app.Get("/file/:v", func(c fiber.Ctx) error {
+		vi, _ := strconv.Atoi(c.Params("v"))
+		if vi < 0 || vi >= len(variants) {
+			return fiber.ErrNotFound
+		}
+		isProbe := c.Query("probe") == "1"
+		name := fileNames[c.Query("f", "a")]
+		cfg := variants[vi]
+		path := filepath.Join(dir, name)
+		if cfg.FS != nil {
+			path = name
+		}
+		if isProbe {
+			s.probes++
+			me := ctxPtr(c)
+			for _, p := range s.ptrs[:max(len(s.ptrs)-1, 0)] {
+				if p == me {
+					s.reused = true
+				}
+			}
+		}
+		err := c.SendFile(path, cfg)
+		if isProbe {
+			s.vec = map[string]string{"sendfile-error": canon(errStr(err))}
+		}
+		return err
+	})
+
 	// --- the probe ------------------------------------------------------------------------
 	probe := func(c fiber.Ctx) error {
 		s.probes++
@@ -370,6 +525,12 @@ func isoBuild(cfg isoCfg) (*fiber.App, *isoSink) {
 		}
 		v["bind"] = canon(bm)
 
+		// the multi-named struct, from the ONE source the probe request names
+		if src := c.Query("xsrc"); src != "" {
+			x, err := bindX(c, src)
+			v["bind-xsrc"] = canon(map[string]any{"source": src, "v": fmt.Sprintf("%+v", x), "err": errStr(err)})
+		}
+
 		// a bind that fails when the probe carries a=notanumber: exposes a leaked
 		// WithAutoHandling (status 400 / wrapped error) of an earlier occupant
 		{
@@ -392,12 +553,19 @@ func isoBuild(cfg isoCfg) (*fiber.App, *isoSink) {
 		c.Response().ResetBody()
 		c.Response().Header.Del(fiber.HeaderContentType)
 
-		// variant R: a bare Redirect().To()
-		isR := c.Query("variant") == "R"
-		if isR {
-			_ = c.Redirect().To("/after-probe")
+		// variants R / RB / RR: a bare Redirect().To() / .Back(fallback) / .Route(named)
+		if variant := c.Query("variant"); variant != "" {
+			var rerr error
+			switch variant {
+			case "R":
+				rerr = c.Redirect().To("/after-probe")
+			case "RB":
+				rerr = c.Redirect().Back("/fallback-of-probe")
+			case "RR":
+				rerr = c.Redirect().Route("named", fiber.RedirectConfig{Params: fiber.Map{"id": "p7"}, Queries: map[string]string{"from": "probe"}})
+			}
 			rh := c.GetRespHeaders()
-			v["redirect"] = canon(map[string]any{"status": c.Response().StatusCode(), "headers": rh})
+			v["redirect"] = canon(map[string]any{"status": c.Response().StatusCode(), "headers": rh, "err": errStr(rerr)})
 		}
 
 		s.vec = v
